@@ -308,6 +308,11 @@ def zeros(
     nnz = len(nz_idx)
     num_zeros = data_size - nnz
 
+    if samples == 0:
+        return np.zeros((0, data.ndims), dtype=int)
+    if num_zeros == 0:
+        raise ValueError("Cannot sample zeros from a tensor without zeros")
+
     if over_sample_rate < 1.1:
         raise ValueError(
             f"Over sampling rate must be >= 1.1 but got {over_sample_rate}"
